@@ -22,9 +22,12 @@ def get_engine(name):
     if name == "E1":
         from .workloads import e1
         return e1.run_case_params
+    if name == "E1p":
+        from .workloads import e1p
+        return e1p.run_case_params
     if name == "E2":
         from .workloads import e2
-        return e2.run_case_params
+        return e2.run_unit_params
     if name == "E3":
         from .workloads import e3
         return e3.run_case_params
@@ -41,6 +44,9 @@ def get_engine(name):
         from .workloads import e8
         return e8.run_case_params
     raise ValueError(name)
+
+
+INDEXED = {"E2", "E8"}
 
 
 def crash_mechanism(crash):
@@ -65,12 +71,12 @@ def run_shard(engine, params, base, first, count, prop, out=None):
         seed = case_seed(base, engine, i)
         try:
             with contextlib.redirect_stdout(devnull):
-                r = fn(seed, params)
+                r = fn(seed, params, index=i) if engine in INDEXED else fn(seed, params)
         except Exception as e:  # harness failure: never a verdict
             agg["counters"]["harness_errors"] += 1
             agg.setdefault("harness_tb", traceback.format_exc()[-1500:])
             continue
-        agg["cases"] += 1
+        agg["cases"] += r.get("multi", 1)
         spec = r.get("spec", {})
         spec["index"] = i
         spec["base_seed"] = base
@@ -88,7 +94,7 @@ def run_shard(engine, params, base, first, count, prop, out=None):
             r.setdefault("viol_count", {})["C19|clock_went_back|kernel:clock-decreased"] = r["clock_back"]
         crash = r.get("crash")
         if crash:
-            agg["crashed"] += 1
+            agg["crashed"] += crash.get("count", 1)
             mech = crash_mechanism(crash)
             agg["crash_mech"][mech] += 1
             if not r.get("expected_crash"):
@@ -99,6 +105,7 @@ def run_shard(engine, params, base, first, count, prop, out=None):
         nt = r.get("nontrivial", {})
         if nt.get(prop):
             agg["nontrivial_hashes"].append(r.get("hash"))
+        agg["nontrivial_extra"] = agg.get("nontrivial_extra", 0) + r.get("nt_count", {}).get(prop, 0)
         for k, v in r.get("viol_count", {}).items():
             if k.startswith(prop + "|"):
                 agg["viol_count"][k] += v
